@@ -74,7 +74,7 @@ func c18dRun(t *testing.T, p c18dPlan) (res vfResult) {
 		}
 		synctest.Wait()
 		if p.Restart {
-			nr := NewRouter(r.statePath)
+			nr := vfNewRouter(vfPathOf(r))
 			if err := nr.RestoreLastSavedState(); err != nil {
 				res.failf("restore-failed", "%v", err)
 				return
